@@ -240,13 +240,9 @@ def connack_props(tr):
     return {}
 
 
-@oracle("C10")
-def c10(case, lines):
-    tr = Trace(case, lines)
-    if tr.faulty or has(tr, "reconnect", "dropctx", "hold", "spin"):
-        return None
-    R = connack_props(tr).get(33, 65535)
-    conn = connection_streams(tr)[0]
+def quota_walk(tr, conn, R, inflight0, label=""):
+    """walk one connection: the in-flight set (QoS>0 PUBLISH written and not completed) never exceeds R, refusals happen
+    exactly at in-flight = R, nothing else is limited"""
     inp, outp = inbound(tr, conn), outbound(tr, conn)
     if inp is None or outp is None:
         return None
@@ -256,12 +252,12 @@ def c10(case, lines):
     ev_out = {}
     for k, i in outp:
         ev_out.setdefault(k, []).append(i)
-    inflight = set()
+    inflight = set(inflight0)
     fp = first_polls(tr)
     specs = op_specs(tr)
     handled_at = {v: k for k, v in fp.items()}
     done = tr.done()
-    for k in range(len(tr.evs)):
+    for k in range(conn["first"], conn["last"] + 1):
         for i in ev_in.get(k, []):
             if (i["t"] in (4, 7) or (i["t"] == 5 and i["reason"] >= 128)) and i.get("pid") in inflight:
                 inflight.discard(i["pid"])
@@ -270,7 +266,7 @@ def c10(case, lines):
             if o["kind"] == "publish" and o["qos"] > 0 and not o["dup"]:
                 inflight.add(o["pid"])
         if len(inflight) > R:
-            return "bound: %d QoS>0 PUBLISH packets in flight at event %d, Receive Maximum is %d" % (len(inflight), k, R)
+            return "bound: %d QoS>0 PUBLISH packets in flight at event %d%s, Receive Maximum is %d" % (len(inflight), k, label, R)
         if k in handled_at:
             op = handled_at[k]
             sp = specs.get(op)
@@ -278,11 +274,47 @@ def c10(case, lines):
             if sp and sp["kind"] == "pub" and sp["args"].get("q", "0") != "0":
                 refused = any("QuotaExceeded" in r for r in res)
                 if refused and before < R:
-                    return "refusal: publish %d refused with QuotaExceeded while only %d of %d slots were taken" % (op, before, R)
+                    return "refusal: publish %d refused with QuotaExceeded while only %d of %d slots were taken%s" % (op, before, R, label)
                 if refused and len(inflight) != before:
                     return "refusal: a refused publish reached the wire"
             elif any("QuotaExceeded" in r for r in res):
                 return "unlimited: operation %d (%s) was limited by the send quota" % (op, sp and sp["kind"])
+    return None
+
+
+@oracle("C10")
+def c10(case, lines):
+    tr = Trace(case, lines)
+    if has(tr, "dropctx", "hold", "spin"):
+        return None
+    conns = connection_streams(tr)
+    if len(conns) == 1:
+        if tr.faulty:
+            return None
+        return quota_walk(tr, conns[0], connack_props(tr).get(33, 65535), set())
+    # the same Context connected again: R is the new CONNACK's; what is re-sent on resumption is in flight from the start
+    for j, conn in enumerate(conns):
+        R = None
+        for k in range(conn["first"], conn["last"] + 1):
+            for x in tr.by.get(k, []):
+                mm = re.match(r"C ok .*\brm=(\d+)", x)
+                if mm:
+                    R = int(mm.group(1))
+        if R is None:
+            continue
+        inflight0 = set()
+        if j > 0:
+            outp = outbound(tr, conn)
+            if outp is None:
+                return None
+            runj = next((k for k, e in enumerate(tr.evs) if e == "run" and conn["first"] < k <= conn["last"]), None)
+            inflight0 = set(o["pid"] for k, o in outp if k == runj and ((o["kind"] == "publish" and o["dup"]) or o["kind"] == "pubrel"))
+            if len(inflight0) > R:
+                continue
+        # transport faults end a connection; judge each connection up to its end
+        r = quota_walk(tr, conn, R, inflight0, " of connection %d" % (j + 1))
+        if r:
+            return r
     return None
 
 
